@@ -16,6 +16,9 @@ PROVED (this file):
 * the MinHash wrappers, with the two `size_is_accurate()` answers as parameters: `mh_containment_withheld_iff`,
   `mh_max_containment_withheld_iff`, `mh_avg_withheld_iff` (ANI withheld iff NOT both accurate),
   `mh_jaccard_withheld_iff` (… or je_exceeds_threshold).
+* the comparison / result classes as plumbing over the MinHash-level answers: `avg_some_iff`, `max_some_iff`, `max_none_iff`,
+  `present_values_are_used`, `zero_is_a_present_value` (0.0 is a present value), `prefetch_fields`, `prefetch_withheld_iff`,
+  `prefetch_withheld_iff_unreliable`, `csv_cell_written_iff`, `search_ani_source`; regression `falsy_zero_counterexample`.
 * `size_is_accurate` decision structure (binom.cdf / pmf as parameters): `size_is_accurate_iff`,
   `size_is_accurate_refusals`, `exact_prob_branches`, `size_accuracy_monotone`.
 * float-free interval laws: `point_is_root_of_noise_free_equation`, `ci_roots_bracket_point` (the ordering hypothesis of
@@ -352,6 +355,92 @@ theorem mh_avg_withheld_iff {c12 c21 : Float} {k scaled l1 l2 : Nat} {acc1 acc2 
         · exact e1.mp hn
         · intro hb; exact e2.mp hn ⟨hb.2, hb.1⟩
       · intro hb; exact Or.inl (e1.mpr hb)
+
+/-! ### the comparison / result classes (`sketchcomparison.py`, `search.py`): plumbing laws
+
+`FracMinHashComparison`, `PrefetchResult`, `GatherResult`, `SearchResult` only route MinHash-level answers (model:
+`cmpDirectional`, `cmpAvgProperty`, `cmpEstimateAll`, `prefetchAni`, `searchAni`, `csvPresent`).  An estimate is
+absent only when it is `None`; `0.0` (reliable, disjoint sketches) is a present value like any other. -/
+
+section Classes
+
+variable {V : Type}
+
+/-- average present iff both present, and then it is their mean -/
+theorem avg_some_iff (avg : V → V → V) (a b : Option V) (v : V) :
+    avgAni avg a b = some v ↔ ∃ x y, a = some x ∧ b = some y ∧ v = avg x y := by
+  cases a <;> cases b <;> simp [avgAni, eq_comm]
+
+/-- max present iff both present, and then it is their maximum -/
+theorem max_some_iff (mx : V → V → V) (a b : Option V) (v : V) :
+    maxAni mx a b = some v ↔ ∃ x y, a = some x ∧ b = some y ∧ v = mx x y := by
+  cases a <;> cases b <;> simp [maxAni, eq_comm]
+
+theorem max_none_iff (mx : V → V → V) (a b : Option V) : maxAni mx a b = none ↔ a = none ∨ b = none := by
+  cases a <;> cases b <;> simp [maxAni]
+
+/-- every present pair yields a present average / maximum — whatever the values are, 0 included -/
+theorem present_values_are_used (avg mx : V → V → V) (x y : V) :
+    avgAni avg (some x) (some y) = some (avg x y) ∧ maxAni mx (some x) (some y) = some (mx x y) := ⟨rfl, rfl⟩
+
+/-- which MinHash-level answer feeds which `PrefetchResult` / `GatherResult` field -/
+theorem prefetch_fields (ci : Bool) (avg mx : V → V → V) (r12 r21 : CiAns V) :
+    let p := prefetchAni ci avg mx r12 r21
+    p.query = r12.ani ∧ p.«match» = r21.ani ∧ p.average = avgAni avg r12.ani r21.ani ∧ p.max = maxAni mx r12.ani r21.ani ∧
+      p.pfn = (r12.px || r21.px) ∧
+      p.qlo = (if ci then r12.lo else none) ∧ p.qhi = (if ci then r12.hi else none) ∧
+      p.mlo = (if ci then r21.lo else none) ∧ p.mhi = (if ci then r21.hi else none) :=
+  ⟨rfl, rfl, rfl, rfl, rfl, rfl, rfl, rfl, rfl⟩
+
+/-- `average_containment_ani` / `max_containment_ani` of a result are withheld exactly when a directional estimate is -/
+theorem prefetch_withheld_iff (ci : Bool) (avg mx : V → V → V) (r12 r21 : CiAns V) :
+    ((prefetchAni ci avg mx r12 r21).average = none ↔ r12.ani = none ∨ r21.ani = none) ∧
+    ((prefetchAni ci avg mx r12 r21).max = none ↔ r12.ani = none ∨ r21.ani = none) :=
+  ⟨by show avgAni avg r12.ani r21.ani = none ↔ _; cases r12.ani <;> cases r21.ani <;> simp [avgAni], max_none_iff mx _ _⟩
+
+/-- … hence, with the MinHash-level law (`mh_containment_withheld_iff`: a directional estimate is withheld iff NOT both
+    sizes accurate), the class-level averages / maxima are withheld iff NOT both sizes accurate -/
+theorem prefetch_withheld_iff_unreliable (ci : Bool) (avg mx : V → V → V) (r12 r21 : CiAns V) (acc1 acc2 : Bool)
+    (h12 : r12.ani = none ↔ ¬ (acc1 = true ∧ acc2 = true)) (h21 : r21.ani = none ↔ ¬ (acc1 = true ∧ acc2 = true)) :
+    ((prefetchAni ci avg mx r12 r21).average = none ↔ cmpSizeMayBeInaccurate acc1 acc2 = true) ∧
+    ((prefetchAni ci avg mx r12 r21).max = none ↔ cmpSizeMayBeInaccurate acc1 acc2 = true) := by
+  have hs : cmpSizeMayBeInaccurate acc1 acc2 = true ↔ ¬ (acc1 = true ∧ acc2 = true) := by
+    cases acc1 <;> cases acc2 <;> simp [cmpSizeMayBeInaccurate]
+  have := prefetch_withheld_iff ci avg mx r12 r21
+  constructor
+  · rw [this.1, h12, h21, hs]; exact ⟨fun h => h.elim id id, Or.inl⟩
+  · rw [this.2, h12, h21, hs]; exact ⟨fun h => h.elim id id, Or.inl⟩
+
+/-- `to_write`: a CSV cell is written iff the value is not None -/
+theorem csv_cell_written_iff (v : Option V) : csvPresent v = true ↔ v ≠ none := by
+  cases v <;> simp [csvPresent]
+
+/-- `SearchResult.ani` comes from the directional containment / the max-containment / the Jaccard estimate, by search type;
+    bounds only with `estimate_ani_ci`, never for Jaccard -/
+theorem search_ani_source (ci : Bool) (r12 mc : CiAns V) (j : JacAns V) :
+    searchAni .containment ci r12 mc (.ok j) = .ok (cmpDirectional ci r12) ∧
+    searchAni .maxContainment ci r12 mc (.ok j) = .ok (cmpDirectional ci mc) ∧
+    searchAni .jaccard ci r12 mc (.ok j) = .ok { ani := j.ani, lo := none, hi := none, px := j.px } ∧
+    (cmpDirectional false r12).lo = none ∧ (cmpDirectional false r12).hi = none ∧ (cmpDirectional ci r12).ani = r12.ani :=
+  ⟨rfl, rfl, rfl, rfl, rfl, rfl⟩
+
+end Classes
+
+/-- over ℝ: two reliable disjoint sketches (both directional ANIs = 0) give average 0 and maximum 0, written to the CSV -/
+theorem zero_is_a_present_value :
+    avgAni (fun x y : ℝ => (x + y) / 2) (some 0) (some 0) = some 0 ∧ maxAni (fun x y : ℝ => max x y) (some 0) (some 0) = some 0 ∧
+      csvPresent (some (0 : ℝ)) = true := by
+  refine ⟨?_, ?_, rfl⟩ <;> simp [avgAni, maxAni]
+
+/-- REGRESSION EXAMPLE (seeded change C17c, caught by the `cls` ops): replacing the `is None` tests by truthiness
+    (`if not all(both)`) treats 0 as absent; that variant differs from the modelled rule exactly at a zero -/
+def avgAniFalsy (a b : Option Int) : Option Int :=
+  match a, b with
+  | some x, some y => if x = 0 ∨ y = 0 then none else some ((x + y) / 2)
+  | _, _ => none
+
+theorem falsy_zero_counterexample :
+    avgAniFalsy (some 0) (some 0) = none ∧ avgAni (fun x y : Int => (x + y) / 2) (some 0) (some 0) = some 0 := by decide
 
 /-! ### `MinHash.size_is_accurate`: decision structure (`binom.cdf` / `binom.pmf` are parameters) -/
 
